@@ -1,5 +1,5 @@
 (** C09 — pinned statements only (model: Quorum/QuorumModel.v, after the fix commits). *)
-From Astria Require Import Quorum.QuorumModel Quorum.QuorumSpec Quorum.QuorumProofs.
+From Astria Require Import Quorum.QuorumModel Quorum.QuorumSpec Quorum.QuorumProofs Kernels.KernelEqConductor.
 
 (** the acceptance threshold is exactly "strictly more than two thirds" *)
 Theorem C09_quorum_exact : forall c t, c <= U64_MAX -> t <= U64_MAX ->
@@ -53,3 +53,11 @@ Theorem C09_reconstruct_bound : forall audit hs rs m o, In (m, o) (reconstruct a
   end.
 Proof. exact reconstruct_bound. Qed.
 Print Assumptions C09_reconstruct_bound.
+
+(** Tie to the source: the threshold function regenerated from
+    crates/astria-conductor/src/celestia/block_verifier.rs on every run is the model's [quorum],
+    hence exactly "3 * committed > 2 * total" and panic-free. *)
+Theorem C09_kernel_tied : forall c t, c <= U64_MAX -> t <= U64_MAX ->
+  KConductor.does_commit_voting_power_have_quorum c t = Some (quorum c t).
+Proof. exact keq_quorum. Qed.
+Print Assumptions C09_kernel_tied.
